@@ -123,7 +123,8 @@ def judge(ctx, kspec, res):
         reach = {}
         for o in h["obligations"]:
             v = o["verdict"]
-            if o.get("verdict2") and o["verdict2"] != v and not o["folded"] and "unknown" not in (v, o["verdict2"]):
+            # a disagreement needs two decisive answers; unknown / timeout of the cross-check solver = not cross-checked
+            if o.get("verdict2") in ("sat", "unsat") and v in ("sat", "unsat") and o["verdict2"] != v and not o["folded"]:
                 ctx.errors.append("%s %s: solvers disagree (%s vs %s)" % (h["harness"], o["label"], v, o["verdict2"]))
             if o["kind"] == "reach":
                 reach[o["label"]] = reach.get(o["label"], False) or v == "sat"
